@@ -16,6 +16,7 @@
 //! beta0 = true (error-weight probe) pins the step-size controller parameters (safety factor 0.9, clamps, beta 0) through the builders.
 //! "span": |xend| (default 1; 1.3 with max_step = 1 gives a second, shortened landing step), "dense": false builds the low-level
 //! solver with dense_output(false), "xis": absolute evaluation points for Solution::sol.
+//! "resp": "poly" replaces the impulse probe by the time-dependent problem y_k' = t^k; "h0": |first step| (default 1).
 //! All floats cross the boundary as 16-hex-digit tokens of their bits (the *_f fields are informational).
 use ivp::dense::StepInterpolant;
 use ivp::ivp::IVP;
@@ -42,6 +43,7 @@ fn fjs(xs: &[f64]) -> Value {
 struct Probe {
     dim: usize,
     resp: Option<Vec<Vec<f64>>>, // None = unit vectors
+    poly: bool,                  // time-dependent sanity problem y_k' = t^k (k = 0..dim-1)
     calls: RefCell<Vec<(f64, Vec<f64>)>>,
 }
 
@@ -54,6 +56,12 @@ impl IVP for Probe {
         };
         for v in dydx.iter_mut() {
             *v = 0.0;
+        }
+        if self.poly {
+            for (i, v) in dydx.iter_mut().enumerate() {
+                *v = x.powi(i as i32);
+            }
+            return;
         }
         match &self.resp {
             None => {
@@ -125,11 +133,13 @@ fn run_job(job: &Value) -> Value {
     let thetas: Vec<f64> = job["thetas"].as_array().map(|a| a.iter().map(|t| untok(t.as_str().unwrap())).collect()).unwrap_or_default();
     let beta0 = job["beta0"].as_bool().unwrap_or(false);
     // solve_ivp only: Options::first_step (RK4 needs the sign of the direction; the adaptive methods take |first_step|)
-    let fs: f64 = job["first_step"].as_str().map(untok).unwrap_or(if method == "RK4" { dir } else { 1.0 });
+    let fs: f64 = job["first_step"].as_str().map(untok).unwrap_or(if method == "RK4" { dir * job["h0"].as_str().map(untok).unwrap_or(1.0) } else { job["h0"].as_str().map(untok).unwrap_or(1.0) });
 
     let max_step: Option<f64> = job["max_step"].as_str().map(untok);
 
-    let probe = Probe { dim, resp, calls: RefCell::new(Vec::new()) };
+    let poly = job["resp"].as_str() == Some("poly");
+    let h0: f64 = job["h0"].as_str().map(untok).unwrap_or(1.0); // |first step|
+    let probe = Probe { dim, resp, poly, calls: RefCell::new(Vec::new()) };
     let y0 = vec![0.0; dim];
     let x0 = 0.0;
     let span: f64 = job["span"].as_str().map(untok).unwrap_or(1.0);
@@ -141,29 +151,29 @@ fn run_job(job: &Value) -> Value {
     if api == "lowlevel" {
         let mut rec = Recorder { thetas: thetas.clone(), dim, events: Vec::new(), ncalls_at: Vec::new() };
         let r = catch(|| match method.as_str() {
-            "RK4" => RK4::builder().dense_output(dense_on).build().solve(&probe, x0, &y0, xend, dir * 1.0, Some(&mut rec)),
+            "RK4" => RK4::builder().dense_output(dense_on).build().solve(&probe, x0, &y0, xend, dir * h0, Some(&mut rec)),
             "RK23" => {
                 let s = if beta0 {
                     // error-weight probe: pin the controller parameters so that the crate's defaults do not matter
-                    RK23::builder().first_step(1.0).maybe_max_step(max_step).safety_factor(0.9).scale_min(0.2).scale_max(10.0).build()
+                    RK23::builder().first_step(h0).maybe_max_step(max_step).safety_factor(0.9).scale_min(0.2).scale_max(10.0).build()
                 } else {
-                    RK23::builder().first_step(1.0).maybe_max_step(max_step).dense_output(dense_on).build()
+                    RK23::builder().first_step(h0).maybe_max_step(max_step).dense_output(dense_on).build()
                 };
                 s.solve(&probe, x0, &y0, xend, Tolerance::Scalar(rtol), tol_of(&atol), Some(&mut rec))
             }
             "DOPRI5" => {
                 let s = if beta0 {
-                    DOPRI5::builder().first_step(1.0).maybe_max_step(max_step).beta(0.0).safety_factor(0.9).scale_min(0.2).scale_max(10.0).build()
+                    DOPRI5::builder().first_step(h0).maybe_max_step(max_step).beta(0.0).safety_factor(0.9).scale_min(0.2).scale_max(10.0).build()
                 } else {
-                    DOPRI5::builder().first_step(1.0).maybe_max_step(max_step).dense_output(dense_on).build()
+                    DOPRI5::builder().first_step(h0).maybe_max_step(max_step).dense_output(dense_on).build()
                 };
                 s.solve(&probe, x0, &y0, xend, Tolerance::Scalar(rtol), tol_of(&atol), Some(&mut rec))
             }
             "DOP853" => {
                 let s = if beta0 {
-                    DOP853::builder().first_step(1.0).maybe_max_step(max_step).beta(0.0).safety_factor(0.9).scale_min(0.333).scale_max(6.0).build()
+                    DOP853::builder().first_step(h0).maybe_max_step(max_step).beta(0.0).safety_factor(0.9).scale_min(0.333).scale_max(6.0).build()
                 } else {
-                    DOP853::builder().first_step(1.0).maybe_max_step(max_step).dense_output(dense_on).build()
+                    DOP853::builder().first_step(h0).maybe_max_step(max_step).dense_output(dense_on).build()
                 };
                 s.solve(&probe, x0, &y0, xend, Tolerance::Scalar(rtol), tol_of(&atol), Some(&mut rec))
             }
